@@ -162,21 +162,24 @@ theorem targets_share_front_end {ρ : Type} (ev : List Tok → Option Bool) (ren
 
 /-! ## 2. Stage reports and pipeline state -/
 
-/-- Tie to the source: both HLSL flavours go through one match arm that copies stage, function name and
-    thread-group size from the pipeline definition; Metal copies stage and size; the pipeline state is cloned
-    from the pipeline definition before the target is looked at. -/
+/-- Tie to the source: both HLSL flavours go through one match arm that zips the pipeline's stages (kind and
+    thread-group size) with the entry point names the exporter generated; those names are read from the HLSL name
+    map, which is built from the module and the reserved table only (never from `for_spirv`); Metal copies stage
+    and size; the pipeline state is cloned from the pipeline definition before the target is looked at. -/
 theorem build_shape_as_modelled :
-    buildShape = ⟨true, true, true, true, true⟩ ∧ hlslReportsFunctionName = true := by decide
+    buildShape = ⟨true, true, true, true, true, true⟩ ∧ hlslReportsEmittedName = true ∧
+    nameMapsFromModuleAndReserved = true := by decide
 
-/-- DirectX and Vulkan HLSL report identical stages: kinds, entry points and thread-group sizes. -/
-theorem dx_vk_same_stage_reports (stages : List StageDef) :
-    stageReports .HlslForDirectX stages = stageReports .HlslForVulkan stages := rfl
+/-- DirectX and Vulkan HLSL report identical stages: kinds, (emitted) entry point names and thread-group sizes —
+    whatever the HLSL name map does to function names. -/
+theorem dx_vk_same_stage_reports (rnFn : String → String) (stages : List StageDef) :
+    stageReports rnFn .HlslForDirectX stages = stageReports rnFn .HlslForVulkan stages := rfl
 
 /-- Every target reports the same stage kinds with the same thread-group sizes, in the same order. -/
-theorem all_targets_same_stage_kinds_sizes (t t' : Target) (stages : List StageDef) :
-    (stageReports t stages).map (fun s => (s.stage, s.threads)) =
-    (stageReports t' stages).map (fun s => (s.stage, s.threads)) := by
-  have h : ∀ t, (stageReports t stages).map (fun s => (s.stage, s.threads)) =
+theorem all_targets_same_stage_kinds_sizes (rnFn : String → String) (t t' : Target) (stages : List StageDef) :
+    (stageReports rnFn t stages).map (fun s => (s.stage, s.threads)) =
+    (stageReports rnFn t' stages).map (fun s => (s.stage, s.threads)) := by
+  have h : ∀ t, (stageReports rnFn t stages).map (fun s => (s.stage, s.threads)) =
       stages.map (fun s => (s.stage, s.threads)) := by
     intro t
     simp only [stageReports, List.map_map]
@@ -238,20 +241,20 @@ theorem kindTable_eq (b : Backend) (k : ObjKind) : kindTable b k = hlslDescripto
   · rfl
   · exact (descriptor_tables_equal.1 k).symm
 
-/-- Descriptor kind and count are functions of the declaration only: whatever the back end, the name map and the
-    binding parameters, a reflected binding carries `declDescriptor` of its declaration; its name is the
-    declared name, or on HLSL what the name map makes of it. -/
-theorem kind_count_from_declaration (rn : String → String) (b : Backend) (p : Params) (d : Decl) (r : Binding)
+/-- Descriptor kind and count are functions of the declaration only: whatever the back end, the name maps and the
+    binding parameters, a reflected binding carries `declDescriptor` of its declaration and the back end's
+    reported name for it. -/
+theorem kind_count_from_declaration (rn : NameMaps) (b : Backend) (p : Params) (d : Decl) (r : Binding)
     (h : report rn b p d = .ok (some r)) :
-    (r.name = d.name ∨ (b = .hlsl ∧ r.name = rn d.name)) ∧ declDescriptor d = some (r.kind, r.count) := by
+    r.name = reportedName rn b d ∧ declDescriptor d = some (r.kind, r.count) := by
   obtain ⟨name, shape⟩ := d
   cases shape with
   | cbuffer =>
     cases b with
-    | hlsl => simp only [report] at h; cases h; exact ⟨.inl rfl, rfl⟩
+    | hlsl => simp only [report] at h; cases h; exact ⟨rfl, rfl⟩
     | msl =>
       simp only [report, kindTable, descriptor_tables_equal.2.2.2.2.2] at h
-      cases h; exact ⟨.inl rfl, rfl⟩
+      cases h; exact ⟨rfl, rfl⟩
   | object k arr ss =>
     simp only [report, kindTable_eq] at h
     cases hd : hlslDescriptorKind k with
@@ -261,10 +264,7 @@ theorem kind_count_from_declaration (rn : String → String) (b : Backend) (p : 
       simp only [Except.ok.injEq] at h
       split at h
       · cases h
-        refine ⟨?_, by simp [declDescriptor, hd]⟩
-        cases b
-        · exact .inr ⟨rfl, rfl⟩
-        · exact .inl rfl
+        exact ⟨rfl, by simp [declDescriptor, hd]⟩
       · cases h
   | plain arr => simp [report] at h
 
@@ -274,20 +274,20 @@ def aside (d : Decl) : Bool :=
   | .object k _ ss => ss || isBufferAddress k
   | _ => false
 
-/-- a declaration that is not put aside and whose name the HLSL name map keeps is reflected, or not, or fails the
-    export, identically for every back end and every parameter set -/
-theorem report_shared (rn : String → String) (b b' : Backend) (p p' : Params) (d : Decl)
-    (h : aside d = false) (hn : rn d.name = d.name) : report rn b p d = report rn b' p' d := by
-  obtain ⟨name, shape⟩ := d
-  have hnf : ∀ b, nameFor rn b name = name := by
+/-- a declaration that is not put aside and whose reported name is the same on HLSL and Metal is reflected, or
+    not, or fails the export, identically for every back end and every parameter set -/
+theorem report_shared (rn : NameMaps) (b b' : Backend) (p p' : Params) (d : Decl)
+    (h : aside d = false) (hn : reportedName rn .hlsl d = reportedName rn .msl d) :
+    report rn b p d = report rn b' p' d := by
+  have hnf : ∀ b, reportedName rn b d = reportedName rn .msl d := by
     intro b; cases b
     · exact hn
     · rfl
+  obtain ⟨name, shape⟩ := d
   cases shape with
   | cbuffer =>
-    simp only at hn
     cases b <;> cases b' <;>
-      simp only [report, kindTable, descriptor_tables_equal.2.2.2.2.2]
+      simp only [report, kindTable, descriptor_tables_equal.2.2.2.2.2, hn]
   | object k arr ss =>
     have hss : ss = false := by
       simp only [aside, Bool.or_eq_false_iff] at h
@@ -297,7 +297,7 @@ theorem report_shared (rn : String → String) (b b' : Backend) (p p' : Params) 
   | plain arr => rfl
 
 /-- a static sampler or buffer address contributes nothing to the compared part -/
-theorem aside_not_comparable (rn : String → String) (b : Backend) (p : Params) (d : Decl) (r : Binding)
+theorem aside_not_comparable (rn : NameMaps) (b : Backend) (p : Params) (d : Decl) (r : Binding)
     (ha : aside d = true) (h : report rn b p d = .ok (some r)) :
     (!r.ss && !isAddressKind r.kind) = false := by
   obtain ⟨name, shape⟩ := d
@@ -323,7 +323,7 @@ theorem aside_not_comparable (rn : String → String) (b : Backend) (p : Params)
 
 /-- the export fails with an unsupported object kind for one back end iff for the other (the tables agree),
     whatever the parameters -/
-theorem report_error_shared (rn : String → String) (b b' : Backend) (p p' : Params) (d : Decl) (e : ReportErr)
+theorem report_error_shared (rn : NameMaps) (b b' : Backend) (p p' : Params) (d : Decl) (e : ReportErr)
     (h : report rn b p d = .error e) : report rn b' p' d = .error e := by
   obtain ⟨name, shape⟩ := d
   cases shape with
@@ -336,11 +336,11 @@ theorem report_error_shared (rn : String → String) (b b' : Backend) (p p' : Pa
     | none => rw [hd] at h <;> exact h
     | some dk => rw [hd] at h <;> cases h
 
-/-- For any list of declarations whose names the HLSL name map keeps, any two back ends and parameter sets: both
-    exports fail on an unsupported object kind, or both succeed and the compared parts — names, kinds, counts, in
-    order — are equal. -/
-theorem reports_shared (rn : String → String) (b b' : Backend) (p p' : Params) (ds : List Decl)
-    (hn : ∀ d ∈ ds, rn d.name = d.name) :
+/-- For any list of declarations each of which is reported under the same name by HLSL and by Metal, any two back
+    ends and parameter sets: both exports fail on an unsupported object kind, or both succeed and the compared
+    parts — names, kinds, counts, in order — are equal. -/
+theorem reports_shared (rn : NameMaps) (b b' : Backend) (p p' : Params) (ds : List Decl)
+    (hn : ∀ d ∈ ds, reportedName rn .hlsl d = reportedName rn .msl d) :
     (reports rn b p ds).map comparable = (reports rn b' p' ds).map comparable := by
   induction ds with
   | nil => rfl
@@ -385,23 +385,94 @@ theorem reports_shared (rn : String → String) (b b' : Backend) (p p' : Params)
             simp only [comparable, List.filter_append, List.map_append] at hhead ih ⊢
             rw [hhead, ih]
 
-/-- **Partial (names).**  All targets report the same binding names with the same descriptor kinds and counts,
-    static samplers and buffer addresses aside — *provided no declared name is one the HLSL name map renames*.
-    Missing for the full statement: the hypothesis `hkeep`; without it the statement is false on the current code
-    (`binding_names_not_shared`). -/
-theorem binding_names_kinds_counts_shared_partial (rn : String → String) (t t' : Target) (sba sba' : Bool)
-    (ds : List Decl) (hkeep : ∀ d ∈ ds, rn d.name = d.name) :
-    (bindingsFor rn t sba ds).map comparable = (bindingsFor rn t' sba' ds).map comparable :=
-  reports_shared rn _ _ _ _ ds hkeep
+/-- with the code's name maps, a declared name that both target languages treat alike (reserved in neither or in
+    both; for a cbuffer block: not reserved in Metal) is reported under one name -/
+theorem reservedAlike_same_name (d : Decl) (h : reservedAlike d = true) :
+    reportedName codeNameMaps .hlsl d = reportedName codeNameMaps .msl d := by
+  obtain ⟨name, shape⟩ := d
+  cases shape with
+  | cbuffer =>
+    simp only [reservedAlike, Bool.not_eq_eq_eq_not, Bool.not_true] at h
+    simp only [reportedName, nameFor, codeNameMaps, mslRename, h]
+    rfl
+  | object k arr ss =>
+    simp only [reservedAlike, beq_iff_eq] at h
+    simp only [reportedName, nameFor, codeNameMaps, hlslRename, mslRename, h]
+  | plain arr =>
+    simp only [reservedAlike, beq_iff_eq] at h
+    simp only [reportedName, nameFor, codeNameMaps, hlslRename, mslRename, h]
 
-/-- forgetting the names, the name map does not matter -/
-theorem reports_names_erased (rn : String → String) (b : Backend) (p : Params) (ds : List Decl) :
-    (reports rn b p ds).map comparableKindsCounts = (reports id b p ds).map comparableKindsCounts := by
+/-- **Partial (names).**  All targets report the same binding names with the same descriptor kinds and counts,
+    static samplers and buffer addresses aside — *provided every declared name is reserved in neither or in both
+    target languages* (for a cbuffer block, which HLSL never renames: not reserved in Metal).  Missing for the full
+    statement: the hypothesis `halike`; without it the statement is false on the current code
+    (`binding_names_not_shared`).  (Name maps as modelled by `hlslRename` / `mslRename`: no declared `<name>_0`.) -/
+theorem binding_names_kinds_counts_shared_partial (t t' : Target) (sba sba' : Bool)
+    (ds : List Decl) (halike : ∀ d ∈ ds, reservedAlike d = true) :
+    (bindingsFor codeNameMaps t sba ds).map comparable = (bindingsFor codeNameMaps t' sba' ds).map comparable :=
+  reports_shared codeNameMaps _ _ _ _ ds (fun d hd => reservedAlike_same_name d (halike d hd))
+
+/-- the two HLSL flavours always agree, names included (same exporter, same name map): no hypothesis -/
+theorem dx_vk_bindings_shared (rn : NameMaps) (sba : Bool) (ds : List Decl) :
+    (bindingsFor rn .HlslForDirectX false ds).map comparable =
+    (bindingsFor rn .HlslForVulkan sba ds).map comparable := by
+  simp only [bindingsFor, backendOf]
+  induction ds with
+  | nil => rfl
+  | cons d ds ih =>
+    have hrep : (report rn .hlsl (paramsFor .HlslForDirectX false) d).map (fun r => comparable r.toList) =
+        (report rn .hlsl (paramsFor .HlslForVulkan sba) d).map (fun r => comparable r.toList) := by
+      obtain ⟨name, shape⟩ := d
+      cases shape with
+      | cbuffer => rfl
+      | plain arr => rfl
+      | object k arr ss =>
+        simp only [report]
+        cases kindTable .hlsl k with
+        | none => rfl
+        | some dk =>
+          cases ss <;> simp [Except.map, hasSlot, paramsFor, paramsDefault]
+    simp only [reports]
+    cases hr : report rn .hlsl (paramsFor .HlslForDirectX false) d with
+    | error e =>
+      rw [hr] at hrep
+      cases hr' : report rn .hlsl (paramsFor .HlslForVulkan sba) d with
+      | error e' => rw [hr'] at hrep <;> (simp only [Except.map] at hrep ⊢; exact hrep)
+      | ok r' => rw [hr'] at hrep <;> cases hrep
+    | ok r =>
+      rw [hr] at hrep
+      cases hr' : report rn .hlsl (paramsFor .HlslForVulkan sba) d with
+      | error e' => rw [hr'] at hrep <;> cases hrep
+      | ok r' =>
+        rw [hr'] at hrep
+        simp only [Except.map, Except.ok.injEq] at hrep
+        simp only
+        cases hrs : reports rn .hlsl (paramsFor .HlslForDirectX false) ds with
+        | error e =>
+          rw [hrs] at ih
+          cases hrs' : reports rn .hlsl (paramsFor .HlslForVulkan sba) ds with
+          | error e' => rw [hrs'] at ih <;> exact ih
+          | ok rs' => rw [hrs'] at ih <;> cases ih
+        | ok rs =>
+          rw [hrs] at ih
+          cases hrs' : reports rn .hlsl (paramsFor .HlslForVulkan sba) ds with
+          | error e' => rw [hrs'] at ih <;> cases ih
+          | ok rs' =>
+            rw [hrs'] at ih
+            simp only [Except.map, Except.ok.injEq] at ih ⊢
+            simp only [comparable, List.filter_append, List.map_append] at hrep ih ⊢
+            rw [hrep, ih]
+
+def idMaps : NameMaps := ⟨id, id⟩
+
+/-- forgetting the names, the name maps do not matter -/
+theorem reports_names_erased (rn : NameMaps) (b : Backend) (p : Params) (ds : List Decl) :
+    (reports rn b p ds).map comparableKindsCounts = (reports idMaps b p ds).map comparableKindsCounts := by
   induction ds with
   | nil => rfl
   | cons d ds ih =>
     have hrep : (report rn b p d).map (fun r => comparableKindsCounts r.toList) =
-        (report id b p d).map (fun r => comparableKindsCounts r.toList) := by
+        (report idMaps b p d).map (fun r => comparableKindsCounts r.toList) := by
       obtain ⟨name, shape⟩ := d
       cases shape with
       | cbuffer =>
@@ -423,12 +494,12 @@ theorem reports_names_erased (rn : String → String) (b : Backend) (p : Params)
     cases hr : report rn b p d with
     | error e =>
       rw [hr] at hrep
-      cases hr' : report id b p d with
+      cases hr' : report idMaps b p d with
       | error e' => rw [hr'] at hrep <;> (simp only [Except.map] at hrep ⊢; exact hrep)
       | ok r' => rw [hr'] at hrep <;> cases hrep
     | ok r =>
       rw [hr] at hrep
-      cases hr' : report id b p d with
+      cases hr' : report idMaps b p d with
       | error e' => rw [hr'] at hrep <;> cases hrep
       | ok r' =>
         rw [hr'] at hrep
@@ -437,12 +508,12 @@ theorem reports_names_erased (rn : String → String) (b : Backend) (p : Params)
         cases hrs : reports rn b p ds with
         | error e =>
           rw [hrs] at ih
-          cases hrs' : reports id b p ds with
+          cases hrs' : reports idMaps b p ds with
           | error e' => rw [hrs'] at ih <;> exact ih
           | ok rs' => rw [hrs'] at ih <;> cases ih
         | ok rs =>
           rw [hrs] at ih
-          cases hrs' : reports id b p ds with
+          cases hrs' : reports idMaps b p ds with
           | error e' => rw [hrs'] at ih <;> cases ih
           | ok rs' =>
             rw [hrs'] at ih
@@ -455,38 +526,44 @@ theorem comparableKindsCounts_eq (bs : List Binding) :
   simp [comparableKindsCounts, comparable, List.map_map, Function.comp_def]
 
 /-- **All targets report the same descriptor kinds with the same counts, in the same order, static samplers and
-    buffer addresses aside** — for any declaration list, any name map, any two targets and buffer-address
+    buffer addresses aside** — for any declaration list, any name maps, any two targets and buffer-address
     settings (full strength for the kinds/counts half of the statement). -/
-theorem binding_kinds_counts_shared (rn : String → String) (t t' : Target) (sba sba' : Bool) (ds : List Decl) :
+theorem binding_kinds_counts_shared (rn : NameMaps) (t t' : Target) (sba sba' : Bool) (ds : List Decl) :
     (bindingsFor rn t sba ds).map comparableKindsCounts =
     (bindingsFor rn t' sba' ds).map comparableKindsCounts := by
   simp only [bindingsFor]
   rw [reports_names_erased rn, reports_names_erased rn (backendOf t')]
-  have h := reports_shared id (backendOf t) (backendOf t') (paramsFor t sba) (paramsFor t' sba') ds
-    (fun _ _ => rfl)
-  cases h1 : reports id (backendOf t) (paramsFor t sba) ds with
+  have h := reports_shared idMaps (backendOf t) (backendOf t') (paramsFor t sba) (paramsFor t' sba') ds
+    (fun d _ => by cases d with | mk n sh => cases sh <;> rfl)
+  cases h1 : reports idMaps (backendOf t) (paramsFor t sba) ds with
   | error e =>
     rw [h1] at h
-    cases h2 : reports id (backendOf t') (paramsFor t' sba') ds with
+    cases h2 : reports idMaps (backendOf t') (paramsFor t' sba') ds with
     | error e' => rw [h2] at h <;> exact h
     | ok bs' => rw [h2] at h <;> cases h
   | ok bs =>
     rw [h1] at h
-    cases h2 : reports id (backendOf t') (paramsFor t' sba') ds with
+    cases h2 : reports idMaps (backendOf t') (paramsFor t' sba') ds with
     | error e' => rw [h2] at h <;> cases h
     | ok bs' =>
       rw [h2] at h
       simp only [Except.map, Except.ok.injEq] at h ⊢
       rw [comparableKindsCounts_eq, comparableKindsCounts_eq, h]
 
-/-- **Negation of the full statement on the current code, with a witness**: a texture named `matrix` is reflected
-    as `matrix_0` by the HLSL targets (the name map's renamed identifier) and as `matrix` by Metal.  Replayed on
-    the real compiler by corpus/C18.txt (`reserved-matrix`; known finding). -/
+/-- **Negation of the full statement on the current code, with witnesses** for each way a name can be reserved in
+    one target language only: a texture named `matrix` (HLSL only) is `matrix_0` on the HLSL targets and `matrix`
+    on Metal; a texture named `kernel` (Metal only) is `kernel` on HLSL and `kernel_0` on Metal; a cbuffer block
+    named `main` keeps its name on HLSL and becomes `main_0` on Metal.  Replayed on the real compiler by
+    corpus/C18.txt (`reserved-matrix`, `reserved-kernel`, `reserved-cb-main`; known-finding class
+    `binding-name-reserved-in-one-target`). -/
 theorem binding_names_not_shared :
-    ∃ ds : List Decl,
-      (bindingsFor hlslRename .HlslForDirectX false ds).map comparable ≠
-      (bindingsFor hlslRename .Msl false ds).map comparable :=
-  ⟨[⟨"matrix", .object .Texture2D .single false⟩], by decide⟩
+    (∀ ds ∈ ([[⟨"matrix", .object .Texture2D .single false⟩], [⟨"kernel", .object .Texture2D .single false⟩],
+        [⟨"main", .cbuffer⟩]] : List (List Decl)),
+      (bindingsFor codeNameMaps .HlslForDirectX false ds).map comparable ≠
+      (bindingsFor codeNameMaps .Msl false ds).map comparable) ∧
+    reservedAlike ⟨"matrix", .object .Texture2D .single false⟩ = false ∧
+    reservedAlike ⟨"kernel", .object .Texture2D .single false⟩ = false ∧
+    reservedAlike ⟨"main", .cbuffer⟩ = false := by decide
 
 /-! ## Non-vacuity -/
 
@@ -510,9 +587,9 @@ example :
 example :
     let ds : List Decl := [⟨"g_t", .object .Texture2D (.sized 3) false⟩, ⟨"g_s", .object .SamplerState .single true⟩,
       ⟨"g_a", .object .BufferAddress .single false⟩, ⟨"g_c", .cbuffer⟩]
-    (bindingsFor hlslRename .HlslForDirectX false ds).map comparable =
+    (bindingsFor codeNameMaps .HlslForDirectX false ds).map comparable =
       .ok [("g_t", .Texture2d, some 3), ("g_c", .ConstantBuffer, some 1)] ∧
-    (bindingsFor hlslRename .HlslForDirectX false ds).map List.length = .ok 4 ∧
-    (bindingsFor hlslRename .Msl false ds).map List.length = .ok 3 := by decide
+    (bindingsFor codeNameMaps .HlslForDirectX false ds).map List.length = .ok 4 ∧
+    (bindingsFor codeNameMaps .Msl false ds).map List.length = .ok 3 := by decide
 
 end RsslVerif.Thm.C18
